@@ -99,11 +99,51 @@ def gen_item(rng, idx, tier, pid):
     case = gen.gen_compute_case(rng, maxpix=maxpix, force=force)
     if pid == 'C01' and idx % 5 == 0:
         boundary_default_case(rng, case)
+    if pid in ('C01', 'C03') and idx % 10 == 7 and case['dtype'].startswith('float') and case['fb'] == 0:
+        add_inf_pixels(rng, case)
     if pid == 'C05' and idx % 3 == 0:
         case['mind'] = 0
         case['minn'] = 0
         case['crits'] = []
     return {'case': case, 'ops': []}
+
+
+def add_inf_pixels(rng, case):
+    """turn one or two pixels into +inf (saturated pixels): they are above every threshold and the brightest
+    pixels; each gets a finite above-threshold face neighbour so that no structure consists of infinities only
+    (inf - inf is NaN in the code's arithmetic: outside the exact domain of the model)"""
+    import numpy as np
+    shape = case['shape']
+    n = len(case['k'])
+    vals = [x for x in case['k'] if x is not None]
+    if len(vals) < 3 or case.get('periodic') or case.get('adj') != 'grid':
+        return
+    case['dtype'] = 'float64'
+    case['crits'] = [c for c in case['crits'] if c[0] != 'sum']
+    if case['minv'] != 'min':
+        case['minv'] = [min(vals) - 1, 1]
+    chosen = []
+    for p in rng.sample(range(n), n):
+        if case['k'][p] is None or len(chosen) >= 2:
+            continue
+        c = np.unravel_index(p, shape)
+        ok = False
+        for a in range(len(shape)):
+            for s_ in (1, -1):
+                cc = list(c)
+                cc[a] += s_
+                if 0 <= cc[a] < shape[a]:
+                    q = int(np.ravel_multi_index(cc, shape))
+                    if case['k'][q] is not None and q not in chosen:
+                        ok = True
+        if ok and all(abs(p - q) > 0 for q in chosen):
+            chosen.append(p)
+    # neighbours that serve as finite companions must not themselves become infinite: keep it simple, one pixel
+    chosen = chosen[:1]
+    for p in chosen:
+        case['k'][p] = impl.HUGE
+    case['inf'] = chosen
+    case['kind'] = 'with-inf'
 
 
 def boundary_default_case(rng, case):
@@ -284,4 +324,17 @@ def gen_item_C06(rng, idx, tier, pid):
     item = gen_item(rng, idx, tier, pid)
     if idx % 3 == 1:
         item['ops'] = [('reload', rng.choice(['hdf5', 'fits']))]
+    elif idx % 3 == 2 and len(item['case']['shape']) in (2, 3):
+        # accessors after other uses of the dendrogram (a catalog over a periodic axis unwraps index copies)
+        c = item['case']
+        if rng.random() < 0.6 and c['shape'][-1] >= 3:
+            c['periodic'] = [len(c['shape']) - 1]
+            c['adj'] = 'grid'
+            c['per_as_list'] = False
+        c['k'] = [None if x is None else abs(x) + 1 for x in c['k']]
+        c['dtype'] = 'float64'
+        if c['minv'] != 'min':
+            c['minv'] = [max(c['minv'][0], 0), c['minv'][1]]
+        c['crits'] = [x for x in c['crits'] if x[0] != 'seeds']
+        item['ops'] = [('catalog',)]
     return item
